@@ -177,6 +177,14 @@ fn shapes_with_leaves(n: usize, max_nodes: usize) -> Vec<Rose> {
 
 fn build_any(rng: &mut Rng, r: &Rose) -> (Tree, String) {
     let seed = rng.next() % 100_000;
+    // the first two children merged under a root created AFTER them: the root is not slot 0 and an ordinary internal node may be
+    if r.kids.len() >= 2 && r.comment.is_none() && rng.chance(1, 4) {
+        let case = format!("real.build\tmerge2\t{}\t0", r.canon());
+        let mut st = crate::real::RealState::new();
+        if st.exec(&case).0 == "ok" {
+            return (st.tree, case);
+        }
+    }
     match rng.below(3) {
         0 => (build_api(r), format!("real.build\tapi\t{}\t0", r.canon())),
         1 => (build_api_bfs(r), format!("real.build\tbfs\t{}\t0", r.canon())),
@@ -401,8 +409,8 @@ pub fn run_c05(thorough: bool, seed: u64, driver: &str, rep: &mut Report) {
 // ---------------------------------------------------------------------------------------------
 
 fn pair_requests(a: &Rose, b: &Rose, rng: &mut Rng, q: &mut Q, rep: &mut Report, weighted: bool, same_leafset: bool) {
-    let (ta, ca) = build_any(rng, a);
-    let (tb, cb) = build_any(rng, b);
+    let (mut ta, ca) = build_any(rng, a);
+    let (mut tb, cb) = build_any(rng, b);
     let case = format!("{ca}\n{}", cb.replacen("real.build", "real.build2", 1));
     q.case(case.clone());
     q.push(format!("ar.load\t{}", arena_of(&ta)), Kind::Load);
@@ -492,6 +500,33 @@ fn pair_requests(a: &Rose, b: &Rose, rng: &mut Rng, q: &mut Q, rep: &mut Report,
                 rep.oracle("rf-rename", "changed", &sig_case, &format!("{rf_ab} vs renamed {r2}"));
             }
         }
+        // ---- the SAME objects after an edit and the documented reset: nothing cached by the first comparison may survive ----
+        if n >= 2 && rf_ab.starts_with("ok") {
+            let _ = ta.compare_topologies(&tb);
+            let (x, y) = { let i = rng.below(n); let mut j = rng.below(n); if i == j { j = (i + 1) % n; } (names[i].clone(), names[j].clone()) };
+            let swap = |s: &str| -> String { if s == x { y.clone() } else if s == y { x.clone() } else { s.to_string() } };
+            let a_sw = rename(a, &swap);
+            let leaf_id = |t: &Tree, nm: &str| t.get_leaves().into_iter().find(|i| t.get(i).ok().and_then(|k| k.name.clone()).as_deref() == Some(nm));
+            if let (Some(ix), Some(iy)) = (leaf_id(&ta, &x), leaf_id(&ta, &y)) {
+                ta.get_mut(&ix).unwrap().set_name(y.clone());
+                ta.get_mut(&iy).unwrap().set_name(x.clone());
+                ta.reset_bipartition_cache();
+                tb.reset_bipartition_cache();
+                let rf2 = real_rf(&ta, &tb);
+                let rf2_fresh = real_rf(&fresh(&a_sw), &fresh(b));
+                rep.count("rf_after_edit_and_reset");
+                if rf2 != rf2_fresh {
+                    rep.oracle("rf-after-edit", "differs-from-fresh-trees", &format!("{case}\n# leaves {x} and {y} of the first tree swap names, reset_bipartition_cache, robinson_foulds again"), &format!("reused objects: {rf2}; fresh trees: {rf2_fresh}"));
+                }
+                let (d2, _, same_root2) = brute_delta(&a_sw, b);
+                if let Some(v) = rf2.strip_prefix("ok ").and_then(|x| x.parse::<usize>().ok()) {
+                    let allowed_plus2 = both_rooted && !same_root2 && d2 != 0;
+                    if !(v == d2 || (v == d2 + 2 && allowed_plus2)) {
+                        rep.oracle("rf-after-edit", "not-split-count", &format!("{case}\n# leaves {x} and {y} of the first tree swap names, reset_bipartition_cache, robinson_foulds again"), &format!("rf={v} delta={d2} both_rooted={both_rooted} same_root={same_root2}"));
+                    }
+                }
+            }
+        }
     } else {
         // ---------------- C07 ----------------
         let w = real_wrf(&ta, &tb);
@@ -544,6 +579,39 @@ fn pair_requests(a: &Rose, b: &Rose, rng: &mut Rng, q: &mut Q, rep: &mut Report,
                 let z = real_wrf(&fresh(a), &fresh(&ra));
                 if z != "ok 0" {
                     rep.oracle("wrf-reorder", "nonzero", &sig_case, &z);
+                }
+                // ---- the SAME objects after an edit and the documented reset: every length-based entry point was used on
+                // them, the first tree is rescaled by 2, the caches are reset, and everything is asked again ----
+                let _ = ta.khuner_felsenstein(&tb);
+                let _ = ta.compare_topologies(&tb);
+                let _ = real_branches(&ta, &tb, true);
+                ta.rescale(2.0);
+                ta.reset_bipartition_cache();
+                tb.reset_bipartition_cache();
+                let mut a2 = a.clone();
+                a2.for_each_mut(&mut |x, _, _| x.len = x.len.map(|l| l * 2.0), true, 0);
+                rep.count("wrf_after_edit_and_reset");
+                if let Some((bw2, bk2)) = brute_wrf_kf2(&a2, b) {
+                    let ctx = format!("{case}\n# all comparisons once, rescale(2) on the first tree, reset_bipartition_cache, compare again");
+                    let w3 = real_wrf(&ta, &tb);
+                    if w3 != format!("ok {bw2}") {
+                        rep.oracle("wrf-after-edit", "differs-from-definition", &ctx, &format!("{w3} expected {bw2}"));
+                    }
+                    let want = (bk2 as f64 / (UNIT as f64 * UNIT as f64)).sqrt();
+                    match ta.khuner_felsenstein(&tb) {
+                        Ok(v) if canon_f64(v) == canon_f64(want) => {}
+                        other => rep.oracle("kf-after-edit", "differs-from-definition", &ctx, &format!("{other:?} expected {want}")),
+                    }
+                    if let Ok(c) = ta.compare_topologies(&tb) {
+                        if format!("ok {}", scaled(c.weighted_rf).unwrap_or(i64::MIN)) != format!("ok {bw2}") {
+                            rep.oracle("wrf-after-edit", "report-differs-from-definition", &ctx, &format!("{c:?} expected {bw2}"));
+                        }
+                    }
+                    let br = real_branches(&ta, &tb, false);
+                    let br_fresh = real_branches(&fresh(&a2), &fresh(b), false);
+                    if br != br_fresh {
+                        rep.oracle("wrf-after-edit", "branch-listing-differs-from-fresh-trees", &ctx, &format!("{br:?} vs {br_fresh:?}"));
+                    }
                 }
             }
         }
